@@ -282,9 +282,16 @@ func bigUnrank(rank *big.Int, k int) []int {
 		lo, hi := int64(i-1), int64(i)
 		for new(big.Int).Binomial(hi, int64(i)).Cmp(r) <= 0 {
 			lo = hi
+			if hi > math.MaxInt64/2 { // do not overflow the doubling (only reachable for i = 1 and r near MaxInt)
+				hi = math.MaxInt64
+				if new(big.Int).Binomial(hi, int64(i)).Cmp(r) <= 0 {
+					lo = hi
+				}
+				break
+			}
 			hi *= 2
 		}
-		for lo+1 < hi {
+		for hi-lo > 1 {
 			mid := lo + (hi-lo)/2
 			if new(big.Int).Binomial(mid, int64(i)).Cmp(r) <= 0 {
 				lo = mid
@@ -385,6 +392,19 @@ func checkUnrank(c unrankCase, rec *Rec) error {
 type rankCase struct{ C []int }
 
 func genRankCase(t *rapid.T) rankCase {
+	if rapid.IntRange(0, 3).Draw(t, "boundary") == 0 {
+		// both sides of the point where the rank stops fitting an int: the k-subset of rank MaxInt + delta
+		k := rapid.IntRange(1, 9).Draw(t, "bk")
+		delta := rapid.IntRange(-3000, 3000).Draw(t, "delta")
+		if rapid.Bool().Draw(t, "tight") {
+			delta = rapid.IntRange(-3, 3).Draw(t, "tightdelta")
+		}
+		if k == 1 && delta > 0 {
+			delta = -delta // a 1-subset is its own rank: nothing above MaxInt is representable
+		}
+		r := new(big.Int).Add(bigMaxInt, big.NewInt(int64(delta)))
+		return rankCase{bigUnrank(r, k)}
+	}
 	k := rapid.IntRange(0, 10).Draw(t, "k")
 	c := make([]int, k)
 	prev := -1
@@ -480,6 +500,9 @@ func checkColexAgreement(c colexCase, rec *Rec) error {
 			return fmt.Errorf("Unrank(%d,%d) = %v but CombinationsColex(%d,%d) value #%d = %v", i, c.K, u, c.N, c.K, i, v)
 		}
 	}
+	if it.Next() {
+		return fmt.Errorf("CombinationsColex(%d,%d) yields more than the C(n,k) = %d subsets that Rank/Unrank number: extra value %v", c.N, c.K, total, it.Value())
+	}
 	return nil
 }
 
@@ -507,7 +530,7 @@ func init() {
 		"rapid: (rank,k): k in 0..12; k>=3: rank of every bit length up to MaxInt (10% within 1000 of MaxInt); k in {1,2}: rank bounded so the answer's largest element is <= 2e5 (quick) / 3e6 (thorough) because Unrank walks upward by design. Oracle: big-int greedy colex unranking; Unrank must return within 20s + 1us per expected step (else reported as non-termination), equal the oracle, and Rank must invert it. Non-trivial: rank >= 2^32.",
 		Budget{Checks: 3000, Shards: 1}, Budget{Checks: 100000, Shards: 16}, genUnrankCase, checkUnrank)
 	RegisterRapid("C16_rank",
-		"rapid: strictly increasing non-negative sequences of length 0..10 (small gaps, occasional jumps, 20% with a last element up to 2^40); Rank equals the big-int definition when it fits, must panic (not wrap) when it does not, and Unrank inverts it. Non-trivial: length >= 2.",
+		"rapid: strictly increasing non-negative sequences of length 0..10 (small gaps, occasional jumps, 20% with a last element up to 2^40; a quarter of the cases are the k-subsets whose exact rank is MaxInt + delta, |delta| <= 3000, i.e. both sides of the overflow point); Rank equals the big-int definition when it fits, must panic (not wrap) when it does not, and Unrank inverts it. Non-trivial: length >= 2.",
 		Budget{Checks: 6000, Shards: 1}, Budget{Checks: 300000, Shards: 8}, genRankCase, checkRank)
 	RegisterEnum("C16_colex_agreement",
 		"enumeration: every (n,k) with 0 <= k <= n <= 12 (thorough 14): the i-th value of CombinationsColex(n,k) has Rank i and equals Unrank(i,k) (order agreement and monotonicity). Non-trivial: C(n,k) >= 2.",
